@@ -147,6 +147,8 @@ def expand(ops):
         elif k == 'clear':
             hist.append(('clear',))
             c['ops_clear'] = c.get('ops_clear', 0) + 1
+        if len(ops) > 40 and i + 1 < len(ops) and op[0] == 'assert' and ops[i + 1][0] == 'assert' and i < len(ops) - 31:
+            continue          # bulk filling of a large predicate: read back once at the end of the filling
         hist.append(('dump', KEYS))
         c['dumps_compared'] = c.get('dumps_compared', 0) + 1
     nt = any(n >= 3 for n in per_pred.values())
@@ -157,6 +159,12 @@ def gen_ops(rng):
     n = rng.choice([5, 8, 12, 20, 30])
     keys = rng.sample(KEYS, rng.choice([2, 3, 4]))
     ops = []
+    if rng.random() < 0.12:
+        # a large predicate: size-dependent code paths in the store (thresholds such as 16/32/64/128 facts)
+        big = rng.choice([k for k in KEYS if k[1] > 0])
+        for j in range(rng.choice([17, 33, 40, 65, 130])):
+            ops.append(('assert', rng.choice('zzza'), 'assert_fact', C(big[0], *([I(j)] + [rng.choice(CONST) for _ in range(big[1] - 1)]))))
+        keys = [big] + keys
     for i in range(n):
         key = rng.choice(keys)
         r = rng.random()
